@@ -22,21 +22,21 @@ Proof.
   destruct i as [|i]; constructor; auto.
 Qed.
 
+(* identifiers exist and no cursor makes a relative move from an unspecified position *)
+Fixpoint madm (es : list entry) (ps : list apos) (ops : list mop) : Prop :=
+  match ops with
+  | [] => True
+  | MClone i :: r => exists p, nth_error ps i = Some p /\ madm es (ps ++ [p]) r
+  | MOp i o :: r => exists p, nth_error ps i = Some p /\ admissible p o /\ madm es (set_nth i (fst (aspec es p o)) ps) r
+  end.
+
 Section Clones.
   Variables (ld : N -> N -> outcome block) (root levels : N) (bstore : N -> option (block * list entry * list nat)).
   Hypothesis W : wf_store ld root levels bstore.
   Notation es := (content root levels bstore).
   Notation R := (Rel root bstore levels).
 
-  (* identifiers exist and no cursor makes a relative move from an unspecified position *)
-  Fixpoint madm (ps : list apos) (ops : list mop) : Prop :=
-    match ops with
-    | [] => True
-    | MClone i :: r => exists p, nth_error ps i = Some p /\ madm (ps ++ [p]) r
-    | MOp i o :: r => exists p, nth_error ps i = Some p /\ admissible p o /\ madm (set_nth i (fst (aspec es p o)) ps) r
-    end.
-
-  Theorem clones_refine : forall ops ps sts, Forall2 R ps sts -> madm ps ops ->
+  Theorem clones_refine : forall ops ps sts, Forall2 R ps sts -> madm es ps ops ->
     exists sts' rs, mrun ld root levels sts ops = Done (sts', rs) /\
       Forall2 R (fst (amrun es ps ops)) sts' /\ Forall2 res_ok (snd (amrun es ps ops)) rs.
   Proof.
@@ -56,7 +56,7 @@ Section Clones.
   Qed.
 
   (* from one fresh cursor *)
-  Corollary clones_from_fresh ops : madm [Fresh] ops ->
+  Corollary clones_from_fresh ops : madm es [Fresh] ops ->
     exists sts' rs, mrun ld root levels [cs_fresh] ops = Done (sts', rs) /\ Forall2 res_ok (snd (amrun es [Fresh] ops)) rs.
   Proof.
     intro Ha. destruct (clones_refine ops [Fresh] [cs_fresh]) as (sts' & rs & E & _ & Hrs); [|exact Ha|].
@@ -64,3 +64,24 @@ Section Clones.
     - exists sts', rs. auto.
   Qed.
 End Clones.
+
+(* ---- on the files of the writer model: the abstract cursors run over the inserted entries themselves ---- *)
+From Grenad.model Require Import Trailer Writer.
+From Grenad.proofs Require Import WriterStore.
+
+Theorem written_file_clones compress decompress c :
+  (forall b z, compress (wc_codec c) (wc_level c) b = Done z -> decompress (wc_codec c) z = Done b) ->
+  forall es i s lg m, wc_levels c < 256 -> 1 <= wc_interval c ->
+  w_run_gen vsink vs_wr vs_fl vs_count compress c vs_empty es = (i, Done (s, lg, m)) ->
+  es <> [] -> sorted_strictb (map fst es) = true ->
+  len (vs_bytes s) < 2^64 -> mem_ok lg ->
+  forall ops, madm es [Fresh] ops ->
+  exists sts rs, mrun (load_block decompress (vs_bytes s) (m_codec m)) (m_root m) (m_levels m) [cs_fresh] ops = Done (sts, rs) /\
+    Forall2 res_ok (snd (amrun es [Fresh] ops)) rs.
+Proof.
+  intros Hcodec es i s lg m HL Hint Hrun Hne Hsorted H64 Hmem ops Ha.
+  destruct (written_file_wf compress decompress c Hcodec es i s lg m HL Hint Hrun Hne Hsorted H64 Hmem)
+    as (bs & W & Ec & Hv & Hc & Hn & Hlv & body & Hbytes).
+  rewrite Hc, Hlv. rewrite <- Ec in Ha |- *.
+  exact (clones_from_fresh _ _ _ bs W ops Ha).
+Qed.
